@@ -43,7 +43,7 @@ type Profile struct {
 
 func baseProfile() Profile {
 	return Profile{Name: "general", MaxAuctions: 4, Blocks: [2]int{8, 40}, TxPerBlock: 3, Vesting: [2]int{0, 4}, MaxRounds: [2]int{0, 3},
-		Faults: map[string]float64{FCrashPre: 0.04, FCrashPost: 0.03, FLostCommit: 0.02, FOEAbort: 0.03, FOEHit: 0.03, FQuery: 0.03, FCheckTx: 0.03},
+		Faults: map[string]float64{FCrashPre: 0.04, FCrashPost: 0.03, FLostCommit: 0.02, FOEAbort: 0.03, FOEHit: 0.03, FQuery: 0.03, FCheckTx: 0.03, FDiscarded: 0.05},
 		WInvalid: 0.25, WAdversary: 0.05, WForeign: 0.06, WModify: 0.15, WCancel: 0.05, WCapChange: 0.08, WParams: 0.03, Drain: true}
 }
 
@@ -636,7 +636,8 @@ func (g *gen) txCreate(pm *Model) *Tx {
 		if g.chance(0.02) {
 			m.MaxExtRound = 30
 		}
-		m.ExtRate = g.pick("0.05", "0.2", "0.5", "1", "0.000000000000000001", "0.333333333333333333", "0.25", "0.1")
+		m.ExtRate = g.pick("0.05", "0.2", "0.5", "1", "0.000000000000000001", "0.333333333333333333", "0.25", "0.1",
+			"0.333333333333333334", "0.666666666666666667", "0.666666666666666666", "0.142857142857142858", "0.5", "0.25")
 	} else {
 		m.Kind = KCreateFixed
 	}
